@@ -117,6 +117,27 @@ func (vc *VerifH2connConn) Snapshot() (snap VerifH2connSnap, ok bool) {
 	}
 }
 
+// Hold parks the serve loop inside a testHookCh function until release is called: whatever
+// reaches the loop's channels meanwhile (a frame from the reader, a handler's body-read note, a
+// write request) is pending at the same time when the loop resumes, and select picks among them.
+// ok=false when the loop has ended.
+func (vc *VerifH2connConn) Hold() (release func(), ok bool) {
+	sc := vc.sc
+	entered := make(chan struct{})
+	rel := make(chan struct{})
+	fn := func(int) {
+		close(entered)
+		<-rel
+	}
+	select {
+	case sc.testHookCh <- fn:
+		<-entered
+		return func() { close(rel) }, true
+	case <-sc.doneServing:
+		return func() {}, false
+	}
+}
+
 // VerifH2connBodyState reports the state of a request body pipe from the handler side:
 // bytes buffered, and whether the pipe has been closed.  ok=false for a body-less request.
 func VerifH2connBodyState(b interface{}) (n int, done bool, ok bool) {
